@@ -33,6 +33,25 @@ def make_obj(vals, kind, integer=False):
         return vals[0]
     return list(vals)
 
+def make_fm(kind, value):
+    """fail_mag in the python-level type the case names (edge-value stream): the same number, written differently"""
+    from fractions import Fraction
+    if kind == 'int': return int(value)
+    if kind == 'float': return float(value)
+    if kind == 'neg_zero': return -0.0
+    if kind == 'bool': return bool(value)
+    if kind == 'np_bool': return np.bool_(bool(value))
+    if kind == 'np_float64': return np.float64(value)
+    if kind == 'np_float32': return np.float32(value)
+    if kind == 'np_int64': return np.int64(value)
+    if kind == 'np_int32': return np.int32(value)
+    if kind == '0d_float': return np.array(float(value))
+    if kind == '0d_int': return np.array(int(value))
+    if kind == 'fraction': return Fraction(value)
+    if kind == 'inf': return float('inf')
+    if kind == 'np_inf': return np.float64('inf')
+    raise ValueError('unknown fail_mag kind %r' % kind)
+
 def buffers(o):
     """the numpy buffers of a result / model value: data and (for masked arrays) mask"""
     out = []
@@ -107,7 +126,9 @@ def run_case(c):
                 f = dadi.Numerics.make_extrap_log_func(model, extrap_x_l=xl)
             else:
                 kw = {}
-                if c['fail_mag'] != 10:
+                if c.get('fm_kind'):
+                    kw['fail_mag'] = make_fm(c['fm_kind'], c['fail_mag'])
+                elif c['fail_mag'] != 10:
                     kw['fail_mag'] = c['fail_mag']
                 f = dadi.Numerics.make_extrap_func(model, extrap_x_l=xl, extrap_log=c['log'], **kw)
             funcs.append(f)
